@@ -63,12 +63,34 @@ def specCands (S : RuleSet) (sc : Nat) (bol : Bool) (inp : List UInt8) : List (N
       if st'.isEmpty then acc else go st' rest' (len + 1) acc
   go (S.startState sc bol) inp 0 []
 
+def tableScan (T : Tables) (sc : Nat) (bol : Bool) (inp : List UInt8) : Nat :=
+  let rec go (st : DState) (rest : List UInt8) (len : Nat) : Nat :=
+    match rest with
+    | [] => len
+    | c :: rest' =>
+      match T.step st c with
+      | .jam => len
+      | .bad => len
+      | st' => go st' rest' (len + 1)
+  go (T.startState sc bol) inp 0
+
+def specScan (S : RuleSet) (sc : Nat) (bol : Bool) (inp : List UInt8) : Nat :=
+  let rec go (st : SState) (rest : List UInt8) (len : Nat) : Nat :=
+    match rest with
+    | [] => len
+    | c :: rest' =>
+      let st' := st.step c
+      if st'.isEmpty then len else go st' rest' (len + 1)
+  go (S.startState sc bol) inp 0
+
 def tableMatcher (T : Tables) (infos : Array RuleInfo) : Matcher where
   cands := tableCands T
   headLen := headLenOf infos
+  scan := tableScan T
 
 def specMatcher (S : RuleSet) (infos : Array RuleInfo) : Matcher where
   cands := specCands S
   headLen := headLenOf infos
+  scan := specScan S
 
 end FlexVerif
